@@ -27,6 +27,11 @@ CLAIMED = {
     text='Decides for every reachable combination of enum variants (not for sampled frames): the value is serialisable (nothing reached through #[serde(flatten)] or an internally tagged newtype variant uses an entry point FlatMapSerializer / TaggedSerializer rejects), the root is one object, no key is emitted twice, the df tag of DF 0,4,5,11,16,17,18,20,21 is the variant\'s deku id, icao24 exists and is fed by the address/parity field resp. the announced address read at bit 8, both written with one lower-hex template; TimedMessage always writes frame through hex::encode; no pretty writer is used.',
     note='Static rule check. serde 1.0.219 semantics transcribed in checker/shapes.py (version asserted from Cargo.lock). Non-finite numbers: serde_json writes null (library fact); "decoding the hex again gives the same fields" is determinism of decoding (C01-O4). One line: serde_json::to_string never emits a newline (library fact).',
     ref='DESIGN.md §7 C07'),
+ 'C08': dict(level='other', engine='absint',
+    technique='modular abstract interpretation of every deku reader of the decode module (float intervals with exact round-to-nearest bounds, integer intervals, known bits, divisibility of terms, guard refinements) inspected at the struct construction sites',
+    text='Decides, for every value a reader can build from any bits and any context arguments: track / heading / wind direction in [0, 360) (closed at 360 only where the code goes through atan2 and h + 360, stated in spec/ranges.json), roll within +-90, CPR counts below 2^17, vertical rates multiples of 64 / 32 within the encodable span, speeds non-negative, Mach in (0, 1], squawk bits within 0x7777, humidity in [0, 100], temperatures in [-80, 60]; every float stored in a decode-module value is finite and not NaN; both 6-bit character tables equal the Annex 10 subset and are indexed with 6-bit values; the listed structs are built nowhere but in their readers.',
+    note='Static rule check. Each reader is analysed on its own from an arbitrary stream with arbitrary context (an over-approximation of every context reachable from Message::try_from). Trusted: MIR, float interval arithmetic (IEEE round-to-nearest is monotone), libm models (atan2 in [-pi, pi], hypot >= 0, floor/round monotone), deku read contracts. The metric AC13 branch and FLARM are outside this property.',
+    ref='DESIGN.md §7 C08'),
  'C11': dict(level='other', engine='absint+shapes',
     technique='abstract execution of the per-DF match arms compared with the serde shapes (field provenance of icao24, constant df tag); summaries of the two predicates and a case analysis of every return state',
     text='Decides for every record and every filter configuration: in each arm of Filters::is_in for DF 0,4,5,11,16,17,18,20,21 the reference handed to aircraft_in is the very field serialised under icao24 and the label handed to df_in is the serialised df tag; aircraft_in and df_in return (absent or contains or empty); is_in returns df_in only on paths where aircraft_in holds, false otherwise and false for an undecoded record.',
